@@ -462,6 +462,7 @@ fn needs_lock(label: &str) -> bool {
             | "retain"
             | "status"
             | "resize.lock"
+            | "close.lock"
     )
 }
 
@@ -599,8 +600,8 @@ impl World {
             Spec::Get(w, c, r) => ("get.enter", OpKind::Get(*w, *c, *r)),
             Spec::Ret(_) | Spec::RetUnwind(_) => ("ret.users", OpKind::Ret),
             Spec::Take(_) => ("take.users", OpKind::Take),
-            Spec::Resize(_) => ("resize.check", OpKind::Resize),
-            Spec::Close => ("resize.check", OpKind::Close),
+            Spec::Resize(_) => ("resize.lock", OpKind::Resize),
+            Spec::Close => ("close.lock", OpKind::Close),
             Spec::Retain(_) => ("retain", OpKind::Retain),
             Spec::Status => ("status", OpKind::Status),
         };
